@@ -362,7 +362,7 @@ def stmt_node(cfg, expr_or_stmt):
     raise AnalysisError("expression not inside the function's CFG")
 
 
-def provenance(func_node, expr, max_depth=12):
+def provenance(func_node, expr, max_depth=12, control=None):
     """
     Source atoms the value of ``expr`` (evaluated where it stands) derives
     from, following local names through reaching definitions:
@@ -407,6 +407,16 @@ def provenance(func_node, expr, max_depth=12):
                         out.add(('param', d[1]))
                     else:
                         visit(val, dn, depth + 1)
+                        if control == 'sentinel' and _is_sentinel(val):
+                            # the choice of a constant is decided by the
+                            # conditions that guard the assignment
+                            from .srcmodel import guards as _guards
+                            for test, pol in _guards(dn.ast):
+                                owner = test
+                                while owner is not None and owner not in cfg.of_stmt:
+                                    owner = parent(owner)
+                                if owner is not None:
+                                    visit(test, cfg.of_stmt[owner], depth + 1)
             return
         if isinstance(e, ast.Constant):
             out.add(('const', repr(e.value)))
@@ -446,6 +456,16 @@ def provenance(func_node, expr, max_depth=12):
 
     visit(expr, stmt_node(cfg, expr), 0)
     return out
+
+
+def _is_sentinel(val):
+    if isinstance(val, ast.Constant):
+        return True
+    if isinstance(val, ast.Attribute):
+        from .srcmodel import dotted
+        d = dotted(val)
+        return bool(d) and not d.startswith('self.')
+    return False
 
 
 def prov_calls(prov):
